@@ -59,6 +59,9 @@ def OpsImpl.funcName (o : OpsImpl) : Tok :=
   | .un u => u.func
   | _ => ""
 
+/-- `with_ref_type`: `&ty`, a trait object with several bounds parenthesized -/
+def refFieldTy (ty : Ty) (isRef : Bool) : Toks := if isRef then "&" :: ty.parenIfPlus.toks else ty.toks
+
 def OpsImpl.renderForm (o : OpsImpl) (l r : Bool) (w : WCB) : Toks :=
   let trait_ := o.kind.path
   let this := thisTyToks o.name o.generics
@@ -70,7 +73,7 @@ def OpsImpl.renderForm (o : OpsImpl) (l r : Bool) (w : WCB) : Toks :=
     let rhsTy := withRef this r
     let values := o.fields.map fun f =>
       let fty := f.field.ty.toks
-      ufcs (withRef fty l) (trait_ ++ angle (withRef fty r)) fn ++
+      ufcs (refFieldTy f.field.ty l) (trait_ ++ angle (refFieldTy f.field.ty r)) fn ++
         paren (withRef (memberOf "self" f) l ++ "," :: withRef (memberOf "__rhs" f) r)
     let wheres := w.build fun ty =>
       let t := ty.toks
@@ -86,7 +89,7 @@ def OpsImpl.renderForm (o : OpsImpl) (l r : Bool) (w : WCB) : Toks :=
     let rhsTy := withRef this r
     let exprs := o.fields.map fun f =>
       let fty := f.field.ty.toks
-      ufcs fty (trait_ ++ angle (withRef fty r)) fn ++
+      ufcs fty (trait_ ++ angle (refFieldTy f.field.ty r)) fn ++
         paren ("&" :: "mut" :: memberOf "self" f ++ "," :: withRef (memberOf "__rhs" f) r)
     let wheres := w.build fun ty =>
       let t := ty.toks
@@ -98,7 +101,7 @@ def OpsImpl.renderForm (o : OpsImpl) (l r : Bool) (w : WCB) : Toks :=
     let selfTy := withRef this l
     let values := o.fields.map fun f =>
       let fty := f.field.ty.toks
-      ufcs (withRef fty l) trait_ fn ++ paren (withRef (memberOf "self" f) l)
+      ufcs (refFieldTy f.field.ty l) trait_ fn ++ paren (withRef (memberOf "self" f) l)
     let wheres := w.build fun ty =>
       let t := ty.toks
       if l then "for" :: angle ["'__a"] ++ "&" :: "'__a" :: t ++ ":" :: trait_ ++ angle ("Output" :: "=" :: t)
@@ -242,7 +245,7 @@ def isMaybeBound : TBound → Bool
 def mayBeUnsized (ty : Ty) (g : Generics) : Bool :=
   match ty with
   | .slice _ => true
-  | .dynT _ _ => true
+  | .dynT _ _ _ => true
   | .path false [.mk i []] =>
     i == "str" ||
     (g.params.any fun | .ty n bs _ => n == i && bs.any isMaybeBound | _ => false) ||
